@@ -402,5 +402,8 @@ pub fn run(p: &Params) -> Run {
     run.notes.push("follow mode: the real FollowFileExecutor (--head) over a growing file; its retry hook at end-of-file clears the flag and appends the remaining lines, stdout (fd 1) is captured; compared with runFollow of the model (`followi`) and with the implementation's own run over the first k lines".to_owned());
     run.notes.push("statements (SELECT, DISTINCT, LIMIT, aggregates; half of them over an INNER/OUTER JOIN) x 0-10 input lines in 1-3 files x joined files of 0-34 lines; the running flag is cleared from the per-line hook before every input line k, before joined-file lines around the loader's sampling points (0, 9, 10, 11, 20, 21, 30, random), and from the capturing printer after its 1st / a random / its last line".to_owned());
     run.notes.push("oracle on the implementation: total_lines = k (never more), interrupted output is a prefix of the uninterrupted implementation run (non-aggregate), interrupted aggregate output = implementation batch run over the first k lines, status = status of that run, loader looks at no more than 11 further lines".to_owned());
+    // the whole program in follow mode: raw texts, a real growing file, every output format (Props/PipelineFollow.lean)
+    let mut frng = Rng::new(p.seed ^ 0xC19e2ef);
+    for focus in &["limit", "group"] { crate::e2ef::stream(&mut run, &mut frng, p.n(100, 2000), focus); }
     run
 }
